@@ -59,7 +59,7 @@ def mutate(rng, doc, version):
     for _ in range(rng.choice([1, 1, 1, 2, 2, 3])):
         k = rng.choice(["top-field", "el-field", "dup-el", "cycle", "self-signed", "dangling",
                         "target", "drop-el", "dup-name", "nonstring-name", "type", "grow",
-                        "elements-kind", "retarget-any"])
+                        "elements-kind", "retarget-any", "hex-resize", "hex-resize"])
         els = d.get("elements")
         ok_els = isinstance(els, list) and els and all(isinstance(e, dict) for e in els)
         if k == "top-field":
@@ -80,6 +80,24 @@ def mutate(rng, doc, version):
             else:
                 e[f] = v
             labels.append("el:%s" % f)
+        elif k == "hex-resize" and ok_els:
+            # still hex, but not the size / structure the element type needs (a quote that
+            # is not a whole sgx_quote_t, a key of 3 bytes, DER cut short ...)
+            e = rng.choice(els)
+            f = rng.choice([x for x in ("message", "message", "signature", "key", "auth_data",
+                                        "custom_data", "tweak") if isinstance(e.get(x), str)] or
+                           ["message"])
+            old = e.get(f) if isinstance(e.get(f), str) else ""
+            n = rng.choice([1, 2, 3, 31, 32, 33, 47, 48, 64, 65, 100, 383, 384, 431, 432, 433,
+                            436, 1000, max(1, len(old) // 2 - 1), len(old) // 2 + 1])
+            how = rng.choice(["cut", "cut", "random", "pad"])
+            if how == "cut" and len(old) >= 2 * n:
+                e[f] = old[:2 * n]
+            elif how == "pad":
+                e[f] = old + "00" * n
+            else:
+                e[f] = rng.randbytes(n).hex()
+            labels.append("hex-resize:%s" % f)
         elif k == "dup-el" and ok_els:
             e = copy.deepcopy(rng.choice(els))
             if rng.random() < 0.5 and ok_els:
